@@ -140,7 +140,16 @@ def run(ctx, prop):
                     continue
                 if t == "method" and j > 0 and toks[j - 1][1].startswith("#["):
                     continue
-                for doc in ["/**\n * added doc\n */", "/**\nno stars here\n  */", "/**\n * éè unicode\n * second\n */"]:
+                docs = ["/**\n * added doc\n */", "/**\nno stars here\n  */", "/**\n * éè unicode\n * second\n */"]
+                if not any(k[0] == "doc" for k in distinct):
+                    # first documented position of the run: multi-byte characters at every byte
+                    # column around the closing asterisk's column, asterisk-less and starred lines
+                    for close in (0, 1, 2, 3, 5):
+                        for off in range(0, 6):
+                            ch = "Ü" if (close + off) % 2 == 0 else "日"
+                            docs.append("/**\n" + " " * off + ch + "bergibt x — y\n" + " " * close + "*/")
+                    docs += ["/** ünï single line */", "/**\n\t* tab — dash\n\t*/", "/**\n * a\n\n *\n * Ω\n */"]
+                for doc in docs:
                     newtoks = toks[:j] + [(ws, doc), ("\n  ", t)] + toks[j + 1:]
                     open(mainp, "w").write("".join(w + x for w, x in newtoks) + tail)
                     hist["doc_variants"] += 1
